@@ -694,6 +694,115 @@ def r2_maxmsgsize(chk):
         r.require(cfg, 8, "size-check obligations in the four manual decoders")
 
 
+# ----------------------------------------------------------------------------
+# R2b: the limit every decoder enforces is the configured ZMQ_MAXMSGSIZE
+# ----------------------------------------------------------------------------
+LIMIT_SOURCE = re.compile(r"(^|\.)(max_msg_size|maxmsgsize)$")
+
+
+def _call_sites_of(prog, sp):
+    out = []
+    for b in prog.bodies.values():
+        if "::tests" in b.path or "_tests::" in b.path:
+            continue
+        for c in b.calls:
+            if sp in prog.callees_of_call(c):
+                out.append(c)
+    return out
+
+
+def _trace_limit(prog, body, o, depth, seen, out):
+    """follow the value of a size-limit operand back to where it comes from: a config/option field (good), a constant (bad),
+    or a parameter (then every call site of the function is followed)"""
+    if depth > 8:
+        out.append(("unknown", body, None, "call chain deeper than 8"))
+        return
+    sl = body.data_slice(o)
+    leaves = [x for x in sl if x[0] != "call" or not x[1].endswith("clone")]
+    consts = [x for x in leaves if x[0] == "const"]
+    srcs = [x for x in leaves if x[0] == "place" and LIMIT_SOURCE.search(x[1])]
+    params = [x for x in leaves if x[0] == "param"]
+    other = [x for x in leaves if x not in consts and x not in srcs and x not in params and not (x[0] == "place" and any(x[1] == s_[1].rsplit(".", 1)[0] for s_ in srcs)) and x[0] != "call"]
+    blk = None
+    if srcs:
+        out.append(("ok", body, blk, "reads %s" % ", ".join(sorted(x[1] for x in srcs))))
+        params = []  # the option field itself was read here; what lies upstream is the config object, not the limit
+    if consts and not srcs and not params:
+        out.append(("const", body, blk, "constant %s" % ", ".join(sorted(str(x[1]) for x in consts))))
+    elif consts and (srcs or params):
+        out.append(("const", body, blk, "a constant (%s) can replace the configured value on some path" % ", ".join(sorted(str(x[1]) for x in consts))))
+    names, _ = body.names
+    for x in params:
+        idx = next((i for i in range(1, body.rec.get("argc", 0) + 1) if names.get(i) == x[1]), None)
+        sp = strip_generics(body.path)
+        if idx is None or (sp, idx) in seen:
+            continue
+        seen.add((sp, idx))
+        sites = _call_sites_of(prog, sp)
+        if not sites:
+            out.append(("dead", body, blk, "parameter `%s` of %s, which has no call site in this configuration" % (x[1], short(body.path))))
+        for c in sites:
+            if idx - 1 < len(c.args):
+                sub = []
+                _trace_limit(prog, c.body, c.args[idx - 1], depth + 1, seen, sub)
+                for st, b2, k2, why in sub:
+                    out.append((st, b2 if st != "ok" else b2, c.blk if b2 is c.body and k2 is None else k2, why))
+    if not srcs and not consts and not params:
+        out.append(("unknown", body, blk, "derives from %s" % sorted(other)[:4]))
+
+
+def r2b_limit_is_the_option(chk):
+    r = chk.rule("R2b", "the size limit every decoder enforces is the configured ZMQ_MAXMSGSIZE", "T11 derives-from (interprocedural)",
+                 "the max_msg_size stored in every ZmtpManualParser (and handed to every free decoder function) derives, through every chain of constructors and trait "
+                 "methods, from ZmtpEngineConfig::max_msg_size, which From<&SocketOptions> copies from the MAXMSGSIZE option; no chain substitutes a constant")
+    for cfg, prog in chk.configs():
+        n = 0
+        sinks = []
+        for b in prog.bodies.values():
+            if "::tests" in b.path or "_tests::" in b.path:
+                continue
+            for blk, i, st in b.aggregates():
+                rv = st["r"]
+                if rv.get("ak") == "adt" and rv.get("adt") == "protocol::zmtp::manual_parser::ZmtpManualParser" and "max_msg_size" in (rv.get("fields") or []):
+                    sinks.append((b, blk, rv["ops"][rv["fields"].index("max_msg_size")], "ZmtpManualParser.max_msg_size"))
+                if rv.get("ak") == "adt" and rv.get("adt") == "socket::options::ZmtpEngineConfig" and "max_msg_size" in (rv.get("fields") or []) and b.impl_trait and "From" in b.impl_trait:
+                    o = rv["ops"][rv["fields"].index("max_msg_size")]
+                    n += 1
+                    sl = b.data_slice(o)
+                    key = "ZmtpEngineConfig::from|max_msg_size is the MAXMSGSIZE option"
+                    if any(x[0] == "place" and x[1].endswith(".maxmsgsize") for x in sl) and not any(x[0] == "const" for x in sl):
+                        r.ok(cfg, key, where(b, blk), "options.maxmsgsize")
+                    else:
+                        r.bad(cfg, key, where(b, blk), "the engine's size limit is not copied from SocketOptions::maxmsgsize (slice: %s)" % sorted(sl)[:4])
+        # free decoder functions that take the limit as a parameter
+        for b in prog.bodies.values():
+            if b.impl_self == "protocol::zmtp::manual_parser::ZmtpManualParser" and b.kind in ("fn", "assoc_fn") and "::tests" not in b.path:
+                names, _ = b.names
+                for i in range(1, b.rec.get("argc", 0) + 1):
+                    if names.get(i) == "max_msg_size" and b.name != "new":
+                        for c in _call_sites_of(prog, strip_generics(b.path)):
+                            sinks.append((c.body, c.blk, c.args[i - 1], "%s(.., max_msg_size)" % b.name))
+        for b, blk, o, what in sinks:
+            res = []
+            _trace_limit(prog, b, o, 0, set(), res)
+            n += 1
+            key = "%s|%s derives from the option" % (short(b.path), what)
+            for x in res:
+                if x[0] == "dead":
+                    r.note("%s: %s not judged on one chain: %s" % (cfg, what, x[3]))
+            res = [x for x in res if x[0] != "dead"]
+            bad = [x for x in res if x[0] != "ok"]
+            if bad:
+                st, b2, k2, why = bad[0]
+                r.bad(cfg, "%s|%s" % (short(b2.path), "decoder limit is the configured option"), where(b2, k2 if k2 is not None else 0),
+                      "the limit that reaches %s is not the configured ZMQ_MAXMSGSIZE on this chain: %s. A decoder built with another limit accepts frames of limit+1 bytes (or buffers an oversized frame) although the option is set" % (what, why))
+            elif res:
+                r.ok(cfg, key, where(b, blk), "; ".join(sorted(set("%s: %s" % (short(x[1].path), x[3]) for x in res)))[:300])
+            else:
+                r.ok(cfg, key, where(b, blk), "only dead chains in this configuration")
+        r.require(cfg, 2, "decoder-limit sinks")
+
+
 def r3_accumulator_cap(chk):
     r = chk.rule("R3", "the read accumulator is capped before every network read", "T3 guarded-by",
                  "read_and_process refuses to read while engine.buffer_len() exceeds the hard cap")
@@ -804,6 +913,7 @@ def run(chk):
     chk.undecided = ["'keeps decoding' liveness", "memory bounds other than MAXMSGSIZE and the accumulator cap", "panics inside external crates beyond the summary list"]
     r1_panic_cone(chk)
     r2_maxmsgsize(chk)
+    r2b_limit_is_the_option(chk)
     r3_accumulator_cap(chk)
     r5_handshake_deadline(chk)
     r6_permit(chk)
